@@ -8,7 +8,7 @@ HERE = os.path.dirname(os.path.dirname(os.path.abspath(__file__)))
 TRUSTED = ("Trusted: CPython, zipfile, snappy, protobuf and the generated schema modules, tmpfs, the reference models in dsim/models.py. "
            "Sampled by seed, not enumerated; Apple Numbers itself is not in the sandbox.")
 
-TECH = "deterministic simulation: seeded op/fault schedules over the real library, lock-step reference model, faults at the io.open/listdir/clock/uuid seams, ddmin-minimised explicit replay files"
+TECH = "deterministic simulation: seeded op/fault schedules over the real library, lock-step reference model, faults at the io.open/listdir/clock/uuid/tempfile seams, seeded ambient configuration (decimal context, time zone, logger level, a python -O part), one process per run, ddmin-minimised explicit replay files"
 
 ALL_CLAIMS = {
     "C01": {
@@ -105,7 +105,7 @@ def main():
         "setup_cmd": "./setup.sh",
         "hooks": {
             "guard": "NUMBERS_PARSER_VERIF",
-            "enable": "no hook in /repo is needed: every seam (io.open/builtins.open, os.listdir/os.scandir, zipfile.time, uuid.uuid1) is patched from outside at run time by dsim/world.py; the guard name is reserved and unused",
+            "enable": "no hook in /repo is needed: every seam (io.open/builtins.open, os.listdir/os.scandir, zipfile.time, uuid.uuid1/uuid4, tempfile names, decimal context, TZ, logger level) is patched from outside at run time by dsim/world.py; the guard name is reserved and unused",
             "baseline_off_cmd": "cd /repo && /venv/bin/python -m pytest -ra -q -p no:cacheprovider --timeout=900 --continue-on-collection-errors",
             "source_commits": [],
             "add_only": True,
@@ -114,7 +114,7 @@ def main():
             "name": "dsim",
             "path": "/verif/dsim",
             "serves_properties": sorted(CLAIMED),
-            "kind_free_text": "deterministic simulator: seeded scheduler over total JSON operations, simulated disk with write faults/crash/at-rest corruption/relayout, simulated clock/uuid/directory order, lock-step reference models, ddmin shrinker, explicit op-list replay files",
+            "kind_free_text": "deterministic simulator: seeded scheduler over total JSON operations, simulated disk with permanent and transient write faults/crash/at-rest corruption/relayout, simulated clock/uuid/directory order/temporary names, seeded ambient configuration, lock-step reference models, ddmin shrinker, explicit op-list replay files",
         }],
         "checks": checks,
         "not_applicable": na,
